@@ -314,7 +314,9 @@ ws_evhttp_read_cb(struct bufferevent *bufev, void *arg)
 	struct evbuffer *input = bufferevent_get_input(evws->bufev);
 
 	bufferevent_incref_and_lock_(evws->bufev);
-	while ((in_len = evbuffer_get_length(input))) {
+	/* deliver nothing once the connection is closed, be it by a close or
+	 * invalid frame or by evws_close() from the message callback */
+	while (!evws->closed && (in_len = evbuffer_get_length(input))) {
 		unsigned char *data = evbuffer_pullup(input, in_len);
 		if (data == NULL) {
 			goto bailout;
